@@ -86,6 +86,44 @@ def run_shape(ctx, b, name, cfg, entries, nprobe, comps=("none",)):
                          "entries": [[k.hex(), v] for k, v in entries], "script": lines})
 
 
+def blocks_apart(ctx, b):
+    """a sparse foreign table whose first and last data blocks start exactly 2^32 bytes apart (their offsets are equal modulo
+    2^32): histories that rest in one of them and seek into the other"""
+    from .. import projection as P
+    wd = ctx.sub("apart")
+    path = os.path.join(wd, "apart.mtbl")
+    blocks = R.blocks_2pow32_apart()
+    offs = R.write_sparse_table(path, blocks)
+
+    def vrec(v):
+        if isinstance(v, int):
+            h = "%016x" % R.fnv64_zeros(v)
+            return [-1, v] + [int(h[i:i + 4], 16) for i in range(0, 16, 4)]
+        return P.vrec(v)
+    mk = {"e": "MkTable", "path": path, "ents": [{"k": list(k), "v": vrec(v)} for bl in blocks for k, v in bl]}
+    hx = shapes.hexs
+    L = ["scratch " + wd, "r_init 0 %s 0 0" % path]
+    for kind in (("iter", b"", b""), ("range", b"k", b"x04"), ("prefix", b"", b"")):
+        L += [gen.open_line(1, "r:0", kind)]
+        for (a, n1, c, n2) in ((b"x02", 2, b"k01", 3), (b"k03", 1, b"x00", 2), (b"x05", 1, b"k00", 2), (b"k02", 2, b"x01", 2), (b"x03", 1, b"k04", 1)):
+            L += ["it_seek 1 %s" % hx(a), "it_next 1 %d" % n1, "it_seek 1 %s" % hx(c), "it_next 1 %d" % n2]
+        L += ["it_destroy 1"]
+    L.append("r_destroy 0")
+    evs, rc, err = core.run_drv(b, "\n".join(L) + "\n", wd, "apart", timeout=900)
+    ctx.cov["blocks_2pow32_apart"] = {"block_offsets": offs}
+    try:
+        os.unlink(path)
+    except OSError:
+        pass
+    if rc != 0:
+        core.report(ctx, "driver ended abnormally (rc=%s) on the table with blocks 2^32 bytes apart: %s" % (rc, err[-1500:]), {"kind": "script", "script": L, "stderr": err[-3000:]})
+        return
+    recs = [{"e": "Reset", "x": 0}, mk] + [e for e in core.convert_events(evs) if e["e"] != "Reset"]
+    for ex, line in core.validate_batch(ctx, recs, "apart"):
+        core.report(ctx, "reader iterator on the table with blocks 2^32 bytes apart: result not explained at trace line %d: %s" % (line, json.dumps(ex[line - 1])[:300]),
+                    {"kind": "trace", "trace": ex, "line": line})
+
+
 def regression_f1(ctx, b):
     """The model with the pinned tree's block_offset behaviour must be rejected by TLC (the model sees F1)."""
     vg = gen.VGen(5000)
@@ -113,6 +151,7 @@ def run(ctx):
     for (name, cfg, entries) in ([sl[0]] if ctx.quick() else sl[:3]):
         run_shape(ctx, b, name + "_far", dict(cfg, prefix=(1 << 32) + 4096 + 13, sparse=True), entries, nprobe=150 if ctx.quick() else 2000)
     regression_f1(ctx, b)
+    blocks_apart(ctx, b)
     random_histories(ctx, b)
     cov = {
         "states": ctx.cov.get("states", 0), "transitions": ctx.cov.get("transitions", 0),
